@@ -14,14 +14,37 @@ pub fn many_digits(r: &mut Rng, lo: f64, hi: f64) -> f64 {
 pub fn gen_simcfg(r: &mut Rng) -> SimCfg {
     let mut c = SimCfg::default();
     c.sched = match r.below(10) {
-        0..=5 => SchedMode::Random,
-        6..=8 => SchedMode::Pct,
+        0..=3 => SchedMode::Random,
+        4..=5 => SchedMode::Pct,
+        6..=8 => SchedMode::PctSync,
         _ => SchedMode::Cooperative,
     };
     c.p_stay = *r.pick(&[0.5, 0.8, 0.9, 0.97]);
     c.pct_depth = r.range(1, 5) as u32;
     c.pct_horizon = *r.pick(&[200u64, 1000, 5000, 20000]);
     c.alloc_every = *r.pick(&[0u64, 1, 3, 8, 32, 128]);
+    c.atomic_every = *r.pick(&[0u64, 0, 1, 1, 2, 5, 17]);
+    if c.sched == SchedMode::PctSync {
+        // synchronisation events are the whole point of this policy
+        c.atomic_every = 1;
+        c.pct_horizon = *r.pick(&[8u64, 20, 60, 200]);
+        c.pct_depth = r.range(1, 8) as u32;
+    }
+    // experimentation aid (never set by the registered commands)
+    match std::env::var("SIM_FORCE_SCHED").ok().as_deref() {
+        Some("pct") => c.sched = SchedMode::Pct,
+        Some("pctsync") => {
+            c.sched = SchedMode::PctSync;
+            c.atomic_every = 1;
+            c.pct_horizon = 30;
+            c.pct_depth = 6;
+        }
+        Some("random") => c.sched = SchedMode::Random,
+        _ => {}
+    }
+    if let Some(a) = std::env::var("SIM_FORCE_ALLOC").ok().and_then(|a| a.parse().ok()) {
+        c.alloc_every = a;
+    }
     c
 }
 
@@ -75,6 +98,9 @@ pub fn gen_termination(r: &mut Rng, w: &mut World) {
 }
 
 pub struct PluginChoice {
+    /// swarm knob: most queries of the batch carry their own cost parameters (weights, rates, aggregation,
+    /// initial state), so per-query state that leaks between concurrent queries has something to leak
+    pub override_heavy: bool,
     pub grid: bool,
     pub lb: Option<&'static str>, // "custom" | "haversine"
     pub inject: bool,
@@ -83,6 +109,7 @@ pub struct PluginChoice {
 
 pub fn gen_plugins(r: &mut Rng, w: &mut World) -> PluginChoice {
     let pc = PluginChoice {
+        override_heavy: r.chance(0.3) || std::env::var_os("SIM_FORCE_HEAVY").is_some(),
         grid: r.chance(0.5),
         lb: if r.chance(0.4) { Some(if r.chance(0.5) { "custom" } else { "haversine" }) } else { None },
         inject: r.chance(0.2),
@@ -139,7 +166,9 @@ pub fn gen_query(r: &mut Rng, w: &World, pc: &PluginChoice, qid: usize, failing_
     }
     let kind = {
         let roll = r.below(100);
-        if !failing_ok {
+        if pc.override_heavy && r.chance(0.75) {
+            QKind::WeightOverride
+        } else if !failing_ok {
             if roll < 70 { QKind::Valid } else if roll < 80 { QKind::NoDest } else if roll < 90 { QKind::WeightOverride } else { QKind::Grid }
         } else if roll < 45 {
             QKind::Valid
@@ -214,6 +243,25 @@ pub fn gen_query(r: &mut Rng, w: &World, pc: &PluginChoice, qid: usize, failing_
             wm.insert(k.clone(), json!(many_digits(r, 0.1, 3.0)));
         }
         q["weights"] = Value::Object(wm);
+        // other per-query cost parameters
+        if r.chance(0.3) {
+            let mut rm = serde_json::Map::new();
+            for (k, _) in &w.weights {
+                rm.insert(k.clone(), if r.chance(0.5) { json!({"type": "factor", "factor": many_digits(r, 0.2, 4.0)}) } else { json!({"type": "raw"}) });
+            }
+            q["vehicle_rates"] = Value::Object(rm);
+        }
+        if r.chance(0.15) {
+            q["cost_aggregation"] = json!("mul");
+        }
+        if r.chance(0.2) && !matches!(w.traversal, crate::world::Traversal::Energy { .. }) {
+            let unit = match &w.traversal {
+                crate::world::Traversal::Distance { unit } => unit.clone(),
+                crate::world::Traversal::Speed { distance_unit, .. } => distance_unit.clone().unwrap_or("meters".into()),
+                _ => "meters".into(),
+            };
+            q["state_features"] = json!({"distance": {"distance_unit": unit, "initial": many_digits(r, 1.0, 50.0)}});
+        }
     }
     if kind == QKind::Grid && pc.grid {
         let mut g = serde_json::Map::new();
